@@ -340,7 +340,42 @@ def r09f(ctx):
     ctx.floor("R09f", n, 4, "open() calls on loader paths")
 
 
+def r09g(ctx):
+    m = ctx.model
+    ctx.rule("R09g", "comparing two loads of the same data terminates in practice: mappings keep their pairs in a Counter subclass "
+                     "keyed by the pair nodes, and nodes compare structurally.  collections.Counter.__eq__ (Python >= 3.10) looks "
+                     "every key of both operands up in both operands; each lookup compares equal-hash keys with ==, which descends "
+                     "into the nested mapping and does the same again - two recursive comparisons per level, 2^depth in all (40 "
+                     "nested dictionaries never finish).  The Counter subclass that holds nodes must define its own __eq__")
+    q = m.find_class("HashableCounter")
+    if q is None:
+        ctx.inconclusive("R09g", "graphtage/utils.py", "HashableCounter", None, "node container", "HashableCounter not found")
+        return
+    mod, cnode = m.classes[q]
+    bases = " ".join(ast.unparse(b) for b in cnode.bases)
+    if "Counter" not in bases:
+        ctx.proved("R09g", m.files[mod], "HashableCounter", cnode, "HashableCounter.__eq__", "not a collections.Counter any more", nontrivial=False)
+        return
+    eq = m.attrs[q].get("__eq__")
+    ctx.floor("R09g", 1, 1, "Counter subclasses holding nodes")
+    if eq and eq[0] == "def":
+        txt = ast.unparse(eq[1].node)
+        if "super().__eq__" in txt or "Counter.__eq__" in txt:
+            ctx.violation("R09g", m.files[mod], "HashableCounter.__eq__", eq[1].node, "HashableCounter.__eq__",
+                          "HashableCounter.__eq__ delegates to Counter.__eq__, which looks every key up in both operands")
+        else:
+            ctx.proved("R09g", m.files[mod], "HashableCounter.__eq__", eq[1].node, "HashableCounter.__eq__",
+                       "own equality (one lookup per key), not Counter's two-sided lookup")
+    else:
+        ctx.violation("R09g", m.files[mod], "HashableCounter", cnode, "HashableCounter.__eq__",
+                      "HashableCounter inherits Counter.__eq__: `all(self[e] == other[e] for c in (self, other) for e in c)` - for mappings "
+                      "whose values are mappings every lookup re-compares the nested mapping, so comparing two equal documents with d "
+                      "nested dictionaries takes about 2^d steps (0.4 s at 16 levels, 6 s at 20, hours at 30): `graphtage doc.json doc.yaml` "
+                      "does not return, although the same data loaded twice must compare equal and exit 0")
+
+
 def run(ctx):
+    r09g(ctx)
     r09a(ctx)
     r09e(ctx)
     r09f(ctx)
